@@ -1,8 +1,63 @@
 import JokerVerif.Drive.Common
-/-! Driver handlers for C13 (to be filled in). -/
+import JokerVerif.Model.Cache
+/-! Driver handlers for C13: recognise an observed step trace as a run of the `Cache` machine and execute
+that run. -/
 open Lean Drive
+
 namespace Drive
 
-def cacheOps : List (String × H) := []
+private def getMode (j : Json) : Except String Cache.Mode := do
+  let m ← getStr j "m"
+  return if m == "r" then .ro else .rw
+
+private def parseStep (j : Json) : Except String Cache.Step := do
+  let s ← getStr j "s"
+  match s with
+  | "mkTemp" => return .mkTemp (← getNat j "f")
+  | "writeTemp" => return .writeTemp (← getNat j "f")
+  | "openUser" => return .openUser (← getNat j "p") (← getMode j)
+  | "openTemp" => return .openTemp (← getNat j "f") (← getMode j)
+  | "body" => return .body (← getStr j "l")
+  | "unlink" => return .unlink (← getNat j "f")
+  | _ => throw s!"unknown step {s}"
+
+private def jFault : Cache.Fault → Json
+  | .none => "none"
+  | .create => "create"
+  | .step k => Json.mkObj [("step", jNat k)]
+
+private def jSt (s : Cache.St) : Json :=
+  Json.mkObj [("tmp", jNats s.tmp), ("userWritten", s.userWritten)]
+
+/-- `cache.run`: `{kind: "object"|"file", trace: [...], raised: bool, tmp0: [...]}`.
+If the observed trace is a run of the machine: the decomposition `(f, inner, fault)`, the model's final
+state and whether the model propagates an exception.  Also the state obtained by blindly replaying the
+observed steps (so that a trace that is NOT a run still shows what it would leave behind). -/
+def cacheRunOp : H := fun j => do
+  let kind ← getStr j "kind"
+  let raised ← getBool j "raised"
+  let tmp0 ← getNats j "tmp0"
+  let trJ ← getArr j "trace"
+  let mut tr : List Cache.Step := []
+  for s in trJ do
+    tr := tr ++ [← parseStep s]
+  let s0 : Cache.St := ⟨tmp0.toList, false⟩
+  let replay := tr.foldl Cache.apply s0
+  if kind == "object" then
+    match Cache.matchObject s0 tr raised with
+    | some (f, inner, fl) =>
+      let r := Cache.objectCall s0 f inner fl
+      return Json.mkObj [("isRun", true), ("f", jNat f), ("nInner", jNat inner.length), ("fault", jFault fl),
+        ("final", jSt r.1), ("propagated", r.2), ("replay", jSt replay), ("fresh", !(tmp0.toList.contains f))]
+    | none => return Json.mkObj [("isRun", false), ("replay", jSt replay)]
+  else
+    match Cache.matchFile tr raised with
+    | some (inner, fl) =>
+      let r := Cache.fileCall s0 inner fl
+      return Json.mkObj [("isRun", true), ("nInner", jNat inner.length), ("fault", jFault fl),
+        ("final", jSt r.1), ("propagated", r.2), ("replay", jSt replay), ("fresh", true)]
+    | none => return Json.mkObj [("isRun", false), ("replay", jSt replay)]
+
+def cacheOps : List (String × H) := [("cache.run", cacheRunOp)]
 
 end Drive
